@@ -8,7 +8,8 @@
    partitionings are the same multiset (the documented mode stability; known finding
    C14-mode-instability, class decided by [cmp_known]). *)
 From Coq Require Import List ZArith NArith Arith Bool String.
-From IB Require Import Util.J Combiners.Reservoir.
+From Coq Require Uint63.
+From IB Require Import Util.J Combiners.Reservoir Combiners.ReservoirTopK.
 Import ListNotations.
 Open Scope Z_scope.
 
@@ -214,6 +215,168 @@ Fixpoint eval_expr (k : nat) (seed : N) (e : J) : option (pracc Z * list Z) :=
   | _ => None
   end.
 
+
+(* ---------------------------------------------------------------- big cases: compact inputs
+   (ranges) and compact observations (size + digests).  The expected sample comes from the closed
+   form of Combiners/ReservoirTopK.v ([topk_fast]; Proofs/ReservoirTopK.v relates it to the
+   operational model), the digests are recomputed here from that sample.
+
+   digest of a list of values (all 0 <= v < 2^62), on primitive integers:
+     d1 = fold (h * 1000003 + v mod P1 + 1) mod P1 from 7,  P1 = 2^31 - 1     (order-sensitive)
+     d2 = fold (h * 2000003 + v mod P2 + 1) mod P2 from 7,  P2 = 2^31 - 19    (order-sensitive)
+     ms = sum (v mod P1) mod P1,  mq = sum ((v mod P1)^2 mod P1) mod P1        (multiset) *)
+Definition dP1 : Uint63.int := Uint63.of_Z 2147483647.
+Definition dP2 : Uint63.int := Uint63.of_Z 2147483629.
+Definition dB1 : Uint63.int := Uint63.of_Z 1000003.
+Definition dB2 : Uint63.int := Uint63.of_Z 2000003.
+Definition dig_step (acc : Uint63.int * Uint63.int * Uint63.int * Uint63.int) (v : Z)
+  : Uint63.int * Uint63.int * Uint63.int * Uint63.int :=
+  let '(d1, d2, ms, mq) := acc in
+  let x := Uint63.of_Z v in
+  let x1 := Uint63.mod x dP1 in
+  let x2 := Uint63.mod x dP2 in
+  (Uint63.mod (Uint63.add (Uint63.add (Uint63.mul d1 dB1) x1) (Uint63.of_Z 1)) dP1,
+   Uint63.mod (Uint63.add (Uint63.add (Uint63.mul d2 dB2) x2) (Uint63.of_Z 1)) dP2,
+   Uint63.mod (Uint63.add ms x1) dP1,
+   Uint63.mod (Uint63.add mq (Uint63.mod (Uint63.mul x1 x1) dP1)) dP1).
+(* (length, d1, d2, ms, mq) *)
+Definition digest (l : list Z) : list Z :=
+  let '(d1, d2, ms, mq) :=
+    fold_left dig_step l (Uint63.of_Z 7, Uint63.of_Z 7, Uint63.of_Z 0, Uint63.of_Z 0) in
+  [Z.of_N (fold_left (fun n _ => N.succ n) l 0%N);
+   Uint63.to_Z d1; Uint63.to_Z d2; Uint63.to_Z ms; Uint63.to_Z mq].
+Definition zlen {A} (l : list A) : Z := Z.of_N (fold_left (fun n _ => N.succ n) l 0%N).
+
+(* start, start + step, ..: n values *)
+Fixpoint zrange (n : nat) (start step : Z) : list Z :=
+  match n with O => [] | S n' => start :: zrange n' (start + step) step end.
+(* one segment [kmod, kbase, start, step, count]: row i = (kbase + i mod kmod, start + step * i) *)
+Fixpoint seg_rows (n : nat) (i kmod kbase start step : Z) : list (Z * Z) :=
+  match n with
+  | O => []
+  | S n' => (kbase + i mod kmod, start + step * i) :: seg_rows n' (i + 1) kmod kbase start step
+  end.
+Definition dec_seg (j : J) : option (list (Z * Z)) :=
+  match j with
+  | JL [JI kmod; JI kbase; JI start; JI step; JI count] =>
+      if (1 <=? kmod) && (0 <=? count) then Some (seg_rows (Z.to_nat count) 0 kmod kbase start step)
+      else None
+  | _ => None
+  end.
+Definition dec_segs (j : J) : option (list (Z * Z)) :=
+  match j with
+  | JL l => match omap dec_seg l with Some rs => Some (List.concat rs) | None => None end
+  | _ => None
+  end.
+
+(* one observed run of a big global case: [shape_ok, len, d1, d2, ms, mq, sub] *)
+Definition dec_brow (j : J) : option (bool * list Z * bool) :=
+  match j with
+  | JL [JB shape; JI len; JI d1; JI d2; JI ms; JI mq; JB sub] => Some (shape, [len; d1; d2; ms; mq], sub)
+  | _ => None
+  end.
+(* one observed key of a big keyed case: [key, len, d1, d2, ms, mq, sub] *)
+Definition dec_krow (j : J) : option (Z * list Z * bool) :=
+  match j with
+  | JL [JI key; JI len; JI d1; JI d2; JI ms; JI mq; JB sub] => Some (key, [len; d1; d2; ms; mq], sub)
+  | _ => None
+  end.
+Definition dec_krows (j : J) : option (list (Z * list Z * bool)) :=
+  match j with JL l => omap dec_krow l | _ => None end.
+
+(* property instance on one observed (len, digests, sub) against the input values [vs] of the
+   global input / of one key: exactly min(k, n) elements; nothing invented (sub-multiset flag
+   computed by the harness on the full sample); and when k >= n the sample is the whole input as a
+   multiset (multiset digests recomputed from the INPUT here) *)
+Definition good_digest (kz : Z) (vs : list Z) (obs : list Z) (sub : bool) : bool :=
+  let n := zlen vs in
+  match obs, digest vs with
+  | [len; _; _; ms; mq], [_; _; _; ms0; mq0] =>
+      (len =? Z.min kz n) && sub &&
+      (if n <=? kz then (ms =? ms0) && (mq =? mq0) else true)
+  | _, _ => false
+  end.
+
+(* the closed form must coincide with the operational model wherever both are run (small
+   inputs); a difference is an inconsistency of the development, not a verdict on the code *)
+Definition lists_eqb (a b : list (list Z)) : bool :=
+  (fix go (a b : list (list Z)) : bool :=
+     match a, b with
+     | [], [] => true
+     | x :: a', y :: b' => zlist_eqb x y && go a' b'
+     | _, _ => false
+     end) a b.
+Fixpoint groups_eqb (a b : list (Z * list Z)) : bool :=
+  match a, b with
+  | [], [] => true
+  | (k1, v1) :: a', (k2, v2) :: b' => (k1 =? k2) && zlist_eqb v1 v2 && groups_eqb a' b'
+  | _, _ => false
+  end.
+Definition closed_ok_g (k : nat) (seed : N) (mode : Z) (data : list Z) : bool :=
+  let parts := parts_of mode data in
+  zlist_eqb (sample_parts k seed parts) (topk_fast k seed parts) &&
+  zlist_eqb (sample_parts k seed parts) (topk_spec k seed parts).
+Definition closed_ok_k (k : nat) (seed : N) (mode : Z) (data : list (Z * Z)) : bool :=
+  let parts := parts_of mode data in
+  groups_eqb (ksort (keyed_parts Z.eqb k seed parts))
+             (ksort (keyed_topk Z.eqb topk_fast k seed parts)) &&
+  groups_eqb (ksort (keyed_unfused_parts Z.eqb k seed parts))
+             (ksort (keyed_topk_unfused Z.eqb topk_fast k seed parts)).
+
+(* route 0: the per-key sample is collected directly (planner lifts GroupByKey + CombineValues);
+   route >= 1: it feeds a join (1 = left input of join_inner, 2 = left input of join_left,
+   3 = right input of join_inner; the other side holds one row per key) *)
+Definition m_keyed_route (route : Z) (k : nat) (seed : N) (mode : Z) (data : list (Z * Z))
+  : list (Z * list Z) :=
+  if route =? 0 then m_keyed_vec k seed mode data
+  else ksort (keyed_unfused_parts Z.eqb k seed (parts_of mode data)).
+Definition model_j (entry route : Z) (k : nat) (seed : N) (mode : Z) (data : list (Z * Z)) : J :=
+  let v := m_keyed_route route k seed mode data in
+  if entry =? 0 then JL (map enc_group v) else JL (map enc_pair (flatten_keyed v)).
+Definition fast_keyed_route (route : Z) (k : nat) (seed : N) (mode : Z) (data : list (Z * Z))
+  : list (Z * list Z) :=
+  let parts := parts_of mode data in
+  ksort (if route =? 0 then keyed_topk Z.eqb topk_fast k seed parts
+         else keyed_topk_unfused Z.eqb topk_fast k seed parts).
+
+Fixpoint krows_agree (entry : Z) (exp : list (Z * list Z)) (obs : list (Z * list Z * bool)) : bool :=
+  match exp with
+  | [] => match obs with [] => true | _ => false end
+  | (key, s) :: exp' =>
+      (* the flattened form has no row for a key whose sample is empty *)
+      match s, entry =? 0 with
+      | [], false => krows_agree entry exp' obs
+      | _, _ =>
+          match obs with
+          | (key', d, _) :: obs' => (key =? key') && zlist_eqb d (digest s) && krows_agree entry exp' obs'
+          | [] => false
+          end
+      end
+  end.
+Fixpoint krows_good (entry kz : Z) (data : list (Z * Z)) (keys : list Z)
+         (obs : list (Z * list Z * bool)) : bool :=
+  match keys with
+  | [] => match obs with [] => true | _ => false end
+  | key :: keys' =>
+      let vs := values_of key data in
+      match obs with
+      | (key', d, sub) :: obs' =>
+          if key =? key' then good_digest kz vs d sub && krows_good entry kz data keys' obs'
+          else negb (entry =? 0) && (Z.min kz (zlen vs) =? 0) && krows_good entry kz data keys' obs
+      | [] => negb (entry =? 0) && (Z.min kz (zlen vs) =? 0) && krows_good entry kz data keys' obs
+      end
+  end.
+Fixpoint krows_eqb (a b : list (Z * list Z * bool)) : bool :=
+  match a, b with
+  | [], [] => true
+  | (k1, d1, s1) :: a', (k2, d2, s2) :: b' =>
+      (k1 =? k2) && zlist_eqb d1 d2 && Bool.eqb s1 s2 && krows_eqb a' b'
+  | _, _ => false
+  end.
+
+(* inputs up to this size are also run through the operational model *)
+Definition small_limit : nat := 40.
+
 (* ---------------------------------------------------------------- the check *)
 Definition check_C14 (kind : string) (input output : J) : verdict :=
   if String.eqb kind "g" then
@@ -223,6 +386,7 @@ Definition check_C14 (kind : string) (input output : J) : verdict :=
         | Some kz, Some seed, Some data =>
             let k := clamp_k kz (List.length data) in
             let m := model_g entry k seed mode data in
+            if negb (closed_ok_g k seed mode data) then malformed else
             ok_verdict (jeqb r1 m && jeqb r2 m)
                        (prop_g entry k data r1 && prop_g entry k data r2 && jeqb r1 r2)
         | _, _, _ => malformed
@@ -237,6 +401,7 @@ Definition check_C14 (kind : string) (input output : J) : verdict :=
         | Some kz, Some seed, Some data =>
             let k := clamp_k kz (List.length data) in
             let m := model_k entry k seed mode data in
+            if negb (closed_ok_k k seed mode data) then malformed else
             ok_verdict (jeqb r1 m && jeqb r2 m)
                        (prop_k entry k data r1 && prop_k entry k data r2 && jeqb r1 r2)
         | _, _, _ => malformed
@@ -276,6 +441,61 @@ Definition check_C14 (kind : string) (input output : J) : verdict :=
                         end in
             V agree same (cmp_known k m1 m2 data) false
         | _, _, _ => malformed
+        end
+    | JL [JI _; _; _; JI _; JI _; _], _ => ok_verdict false false
+    | _, _ => malformed
+    end
+  else if String.eqb kind "j" then
+    (* per-key sample through a join (or route 0: directly), explicit rows, bit-exact *)
+    match input, output with
+    | JL [JI entry; jk; js; JI mode; JI route; jd], JL [JS "ok"; r1; r2] =>
+        match dec_k jk, dec_seed js, dec_pairs jd with
+        | Some kz, Some seed, Some data =>
+            let k := clamp_k kz (List.length data) in
+            let m := model_j entry route k seed mode data in
+            if negb (closed_ok_k k seed mode data) then malformed else
+            ok_verdict (jeqb r1 m && jeqb r2 m)
+                       (prop_k entry k data r1 && prop_k entry k data r2 && jeqb r1 r2)
+        | _, _, _ => malformed
+        end
+    | JL [JI _; _; _; JI _; JI _; _], _ => ok_verdict false false
+    | _, _ => malformed
+    end
+  else if String.eqb kind "bg" then
+    match input, output with
+    | JL [JI entry; jk; js; JI mode; JL [JI start; JI step; JI n]], JL [JS "ok"; o1; o2] =>
+        match dec_k jk, dec_seed js, dec_brow o1, dec_brow o2 with
+        | Some kz, Some seed, Some (sh1, d1, sub1), Some (sh2, d2, sub2) =>
+            if (n <? 0) || (start <? 0) || (step <? 0) then malformed else
+            let data := zrange (Z.to_nat n) start step in
+            let k := clamp_k kz (Z.to_nat n) in
+            let parts := parts_of mode data in
+            let s := topk_fast k seed parts in
+            if Nat.leb (Z.to_nat n) small_limit && negb (closed_ok_g k seed mode data)
+            then malformed else
+            let e := digest s in
+            ok_verdict (sh1 && sh2 && zlist_eqb d1 e && zlist_eqb d2 e)
+                       (sh1 && sh2 && good_digest kz data d1 sub1 && good_digest kz data d2 sub2 &&
+                        zlist_eqb d1 d2)
+        | _, _, _, _ => malformed
+        end
+    | JL [JI _; _; _; JI _; JL [JI _; JI _; JI _]], _ => ok_verdict false false
+    | _, _ => malformed
+    end
+  else if String.eqb kind "bk" then
+    match input, output with
+    | JL [JI entry; jk; js; JI mode; JI route; jsegs], JL [JS "ok"; o1; o2] =>
+        match dec_k jk, dec_seed js, dec_segs jsegs, dec_krows o1, dec_krows o2 with
+        | Some kz, Some seed, Some data, Some rows1, Some rows2 =>
+            let n := fold_left (fun n _ => S n) data O in
+            let k := clamp_k kz n in
+            if Nat.leb n small_limit && negb (closed_ok_k k seed mode data) then malformed else
+            let e := fast_keyed_route route k seed mode data in
+            let keys := keys_of data in
+            ok_verdict (krows_agree entry e rows1 && krows_agree entry e rows2)
+                       (krows_good entry kz data keys rows1 && krows_good entry kz data keys rows2 &&
+                        krows_eqb rows1 rows2)
+        | _, _, _, _, _ => malformed
         end
     | JL [JI _; _; _; JI _; JI _; _], _ => ok_verdict false false
     | _, _ => malformed
